@@ -221,7 +221,7 @@ PROPS['C13'] = Prop('C13', harness='c13', entries=['c13', 'c13b'], props_file='t
                     assumptions=['handler-atomic granularity: a handshake, a connection end and its cleanup are one step each; the order "new-client callback before the first message / before the disconnected callback of a connection that dies at once" (F21) and writers blocked on a full outQueue during cleanup (F6) are finer than the model',
                                  'only handshakes that pass auth / check / origin / negotiation are events of this model (C14 covers the others)'],
                     rule='real ws server on loopback: seeded random sequences (4-17 events over 3 ids) of connect / duplicate connect / client close frame / abrupt TCP reset (SO_LINGER 0) / StopConnection / server Write / server Stop, compared with the registry model after every event (callbacks, refusals, write results, GetChannel of every id); plus concurrent connect bursts on 2 ids judged by a monitor (one winner per id, callback counts, registry empty afterwards); quick 27 sequences + 6 bursts, thorough 400 + 120',
-                    design_ref='5 C13', monitor_prefixes=['C13'], confirm_slow=True, harness_timeout=3000, spec_entries=['c13'])
+                    design_ref='5 C13', monitor_prefixes=['C13'], confirm_slow=True, harness_timeout=3000, spec_entries=['c13'], search_n=400)
 MANIFEST_TEXT['C13'] = dict(
     text='Coq theorems on the registry LTS, for every sequence of events: at most one live connection per id; a duplicate connect is refused without callback and leaves the existing connection untouched; every connection is in exactly one lifecycle state (nothing / refused / connected once and registered / connected once then disconnected once, same id, in that order); the reported ids are exactly the live connections; Write succeeds exactly for registered ids. The model is compared with the real server over loopback sockets after every event of seeded sequences, and concurrent bursts are judged by a monitor on the implementation.',
     note='Trusted: Coq kernel, extraction, harness; gorilla/websocket, net/http, TCP loopback exercised, not verified. Partial: pump-level interleavings inside one connection (cleanup vs blocked writers, run() before the new-client handler) are below the model\'s granularity.',
@@ -232,7 +232,7 @@ PROPS['C15'] = Prop('C15', harness='c15', entries=['c15', 'c15c'], props_file='t
                     assumptions=['the model is handler-atomic: a writer\'s enqueue, one pump delivery, the close; messages are opaque',
                                  'writers blocked on the full output queue are part of the queue in the model (they are released by the close since the repair F6)'],
                     rule='real loopback sockets, three directions (server -> raw client, library client -> server, server -> library client): sequential scenarios of 3-12 writes of boundary sizes (0, 1, 2, 125, 126, 127, 1000, 65535, 65536, 70000, 1 MiB; multi-byte UTF-8 content) with a close from either side at a random point, compared with the model (result of every Write, delivered sequence); concurrent lane: 1 / 2 / 4 / 8 writers x 12 messages, with and without a racing close (StopConnection, peer close, raw TCP close), judged by a monitor: per-writer order, exactly once, byte-for-byte content, nothing lost while open, every Write returns within 4 s, no panic',
-                    design_ref='5 C15', monitor_prefixes=['C15'], confirm_slow=True, harness_timeout=3000, spec_entries=['c15'])
+                    design_ref='5 C15', monitor_prefixes=['C15'], confirm_slow=True, harness_timeout=3000, spec_entries=['c15'], search_n=600)
 MANIFEST_TEXT['C15'] = dict(
     text='Coq theorems on the connection\'s outbound path, for every schedule of writers / pump / close: delivered is a prefix of accepted (exactly once, in order), per-writer order, nothing lost while open, a write on a closed connection errors without effect. Compared with the real ws server and client over loopback sockets in three directions (boundary sizes up to 1 MiB, closes at random points); concurrent writers racing a close are judged on the implementation (order, exactly-once, content, progress of every Write, no panic).',
     note='Trusted: Coq kernel, extraction, harness; gorilla/websocket framing, the kernel and TCP are exercised, not verified. Partial: delivery itself is the network\'s; the theorems speak of the library\'s queueing discipline.',
